@@ -75,8 +75,9 @@ func (s *server) do(r genReq) (genResp, error) {
 }
 
 type target struct {
-	name string
-	raw  []byte
+	name  string
+	raw   []byte
+	goreq []byte // request for protoc-gen-go (synthetic schemas only: the message types do not exist yet)
 	dirs map[string]string // proto file name (without .proto) -> package directory in the example module
 }
 
@@ -94,6 +95,7 @@ func loadTargets(t *testing.T) []target {
 				t.Fatalf("HARNESS: %v", err)
 			}
 			tg := target{name: strings.TrimSuffix(e.Name(), ".req"), raw: b, dirs: map[string]string{}}
+			tg.goreq, _ = os.ReadFile(filepath.Join(dir, tg.name+".goreq"))
 			db, _ := os.ReadFile(filepath.Join(dir, tg.name+".dir"))
 			for _, ln := range strings.Split(string(db), "\n") {
 				if k, v, ok := strings.Cut(ln, "="); ok {
@@ -268,7 +270,7 @@ func runC16(t *rapid.T, w *rep.Worker, tt *testing.T) {
 			first, firstDesc = got, desc
 			byProduct(w, tg.name, params, got)
 			// (the extra special names of some variants do not match the checked-in message types, so those are not compiled)
-			if w.Pending() == "" && !strings.Contains(params, "specialname=Name") && (strings.HasPrefix(tg.name, "multi-") || rapid.IntRange(0, 15).Draw(t, "compile") == 0) {
+			if w.Pending() == "" && !strings.Contains(params, "specialname=Name") && ((strings.HasPrefix(tg.name, "multi-") || tg.goreq != nil) && rapid.Bool().Draw(t, "compilemulti") || rapid.IntRange(0, 15).Draw(t, "compile") == 0) {
 				compileCheck(w, tt, tg, params, got)
 			}
 			continue
@@ -329,6 +331,10 @@ func compileCheck(w *rep.Worker, tt *testing.T, tg target, params string, raw []
 		return
 	}
 	repo := filepath.Join(os.Getenv("VERIF_WORKDIR"), "repo")
+	if tg.goreq != nil {
+		compileSynthetic(w, tt, tg, params, resp, repo)
+		return
+	}
 	mod := filepath.Join(tt.TempDir(), "example")
 	if out, err := exec.Command("cp", "-r", filepath.Join(repo, "example"), mod).CombinedOutput(); err != nil {
 		tt.Fatalf("HARNESS: %v %s", err, out)
@@ -371,6 +377,48 @@ func compileCheck(w *rep.Worker, tt *testing.T, tg target, params string, raw []
 	if err != nil {
 		w.Step("go build of the emitted files for %s", tg.name)
 		w.Violate("output-does-not-compile", fmt.Sprintf("%s with %q: %s", tg.name, params, clipS(string(out), 600)))
+	}
+}
+
+// compileSynthetic builds a scratch module from scratch: protoc-gen-go (built from the module cache) emits the
+// message types for the synthetic schema, the plug-in's files are placed next to them, and everything is compiled.
+func compileSynthetic(w *rep.Worker, tt *testing.T, tg target, params string, resp *pluginpb.CodeGeneratorResponse, repo string) {
+	mod := filepath.Join(tt.TempDir(), "synthetic")
+	_ = os.MkdirAll(mod, 0o755)
+	gen := exec.Command(filepath.Join(os.Getenv("VERIF_BIN"), "protoc-gen-go"))
+	gen.Stdin = bytes.NewReader(tg.goreq)
+	var out bytes.Buffer
+	gen.Stdout = &out
+	if err := gen.Run(); err != nil {
+		tt.Fatalf("HARNESS: protoc-gen-go failed: %v", err)
+	}
+	goResp := &pluginpb.CodeGeneratorResponse{}
+	if err := proto.Unmarshal(out.Bytes(), goResp); err != nil || goResp.Error != nil {
+		tt.Fatalf("HARNESS: protoc-gen-go: %v %s", err, goResp.GetError())
+	}
+	write := func(name, content string) {
+		p := filepath.Join(mod, name)
+		_ = os.MkdirAll(filepath.Dir(p), 0o755)
+		_ = os.WriteFile(p, []byte(content), 0o644)
+	}
+	for _, f := range goResp.File {
+		write(f.GetName(), f.GetContent())
+	}
+	for _, f := range resp.File {
+		write(f.GetName(), f.GetContent())
+	}
+	write("go.mod", "module example.com/verif\n\ngo 1.21\n\nrequire (\n\tgithub.com/CrowdStrike/csproto v0.0.0\n\tgoogle.golang.org/protobuf v1.36.4\n)\n\nreplace github.com/CrowdStrike/csproto => "+repo+"\n")
+	sum, _ := os.ReadFile(filepath.Join(repo, "go.sum"))
+	write("go.sum", string(sum))
+	cmd := exec.Command("go", "build", "./...")
+	cmd.Dir = mod
+	cmd.Env = append(os.Environ(), "GOFLAGS=-mod=mod", "GOPROXY=off", "GOSUMDB=off", "GOTOOLCHAIN=local")
+	bout, err := cmd.CombinedOutput()
+	w.Probes["outputs_compiled"]++
+	w.Probes["synthetic_schema_compiled"]++
+	if err != nil {
+		w.Step("go build of the emitted files for %s (message types from protoc-gen-go)", tg.name)
+		w.Violate("output-does-not-compile", fmt.Sprintf("%s with %q: %s", tg.name, params, clipS(string(bout), 600)))
 	}
 }
 
